@@ -58,9 +58,9 @@ RECOVERIES = ["r", "a", "stale_r", "stale_a", "coll_r", "coll_w", "stale_coll_w"
 
 
 def pre_checks(tier):
-    from ..conformance import real_lock
+    from ..conformance import real_fs, real_lock
 
-    return {"conformance_lock": real_lock.run()}
+    return {"conformance_lock": real_lock.run(), "conformance_fs": real_fs.run()}
 
 
 def budget(tier):
